@@ -134,7 +134,7 @@ func eval(t string, args ...operand) (res string, arm int) {
 
 var counts = map[string]int{}
 
-func emit(kind, t string, w string, errOK bool, args ...operand) {
+func emit(kind, t string, w string, errOK bool, args ...operand) string {
 	r, arm := eval(t, args...)
 	a := make([]string, len(args))
 	for i := range args {
@@ -142,6 +142,14 @@ func emit(kind, t string, w string, errOK bool, args ...operand) {
 	}
 	counts[kind]++
 	hx.Emit(Case{K: kind, Op: t, A: a, R: r, W: w, E: errOK, Arm: arm})
+	return r
+}
+
+// smallLen reports whether an observed length (decimal text) is small enough
+// to materialise the sequence: a wrong, huge length must not exhaust memory.
+func smallLen(r string) bool {
+	z, ok := new(big.Int).SetString(r, 10)
+	return ok && z.Sign() >= 0 && z.Cmp(big.NewInt(1000)) <= 0
 }
 
 // ---------------------------------------------------------------- oracles (math/big only)
@@ -150,8 +158,8 @@ func floorDivMod(x, y *big.Int) (*big.Int, *big.Int) {
 	// Euclidean division from math/big, then moved to floor semantics by hand.
 	q, m := new(big.Int).DivMod(x, y, new(big.Int)) // 0 <= m < |y|
 	if y.Sign() < 0 && m.Sign() != 0 {
-		// Euclid: x = q*y + m with m > 0, y < 0  ->  floor: remainder m + y (negative), quotient q + 1
-		q.Add(q, big.NewInt(1))
+		// Euclid: x = q*y + m with m > 0, y < 0  ->  floor: remainder m + y (negative), quotient q - 1
+		q.Sub(q, big.NewInt(1))
 		m.Add(m, y)
 	}
 	return q, m
@@ -751,7 +759,7 @@ func rangeCases(rd *hx.Rand, r rng, probesInt []*big.Int, probesFloat []float64)
 	}
 	n := seqLen(r.a, r.b, r.c)
 	may := !r.ok()
-	emit("rng_len", "len(range(a0, a1, a2))", n.String(), may, ops...)
+	obsLen := emit("rng_len", "len(range(a0, a1, a2))", n.String(), may, ops...)
 	emit("rng_bool", "bool(range(a0, a1, a2))", boolS(n.Sign() > 0), may, ops...)
 	// indexing
 	idx := []*big.Int{big.NewInt(0), big.NewInt(1), big.NewInt(-1), big.NewInt(-2), add(n, -1), n, neg(n), add(neg(n), -1), big.NewInt(int64(rd.Intn(100)))}
@@ -781,7 +789,7 @@ func rangeCases(rd *hx.Rand, r rng, probesInt []*big.Int, probesFloat []float64)
 		emit("rng_inf", "a3 in range(a0, a1, a2)", w, may, append(ops, mkFloat(f))...)
 	}
 	// whole sequence when short
-	if n.Cmp(big.NewInt(40)) <= 0 {
+	if n.Cmp(big.NewInt(40)) <= 0 && smallLen(obsLen) {
 		parts := []string{}
 		for i := int64(0); i < n.Int64(); i++ {
 			parts = append(parts, seqAt(r.a, r.c, big.NewInt(i)).String())
@@ -924,8 +932,9 @@ func sliceCases(rd *hx.Rand, r rng) {
 			}
 			ops := append(r.ops(), optInt(lo), optInt(hi), optInt(st))
 			lst := "[" + strings.Join(parts, ",") + "]"
-			emit("rng_slice", "list(range(a0, a1, a2)[a3:a4:a5])", lst, false, ops...)
-			emit("rng_slice_len", "len(range(a0, a1, a2)[a3:a4:a5])", fmt.Sprint(cnt), false, ops...)
+			if ol := emit("rng_slice_len", "len(range(a0, a1, a2)[a3:a4:a5])", fmt.Sprint(cnt), false, ops...); smallLen(ol) {
+				emit("rng_slice", "list(range(a0, a1, a2)[a3:a4:a5])", lst, false, ops...)
+			}
 			if cnt > 0 {
 				x := seqAt(r.a, r.c, big.NewInt(first+(cnt-1)*step))
 				emit("rng_slice_in", "a3 in range(a0, a1, a2)[a4:a5:a6]", "T", false, append(r.ops(), mkInt(x), optInt(lo), optInt(hi), optInt(st))...)
@@ -978,9 +987,10 @@ func repeatCases(n *big.Int) {
 	}
 	big_ := n.Cmp(big.NewInt(1<<20)) > 0
 	if !big_ {
-		emit("repeat", "len('abc' * a0)", w, false, mkInt(n))
-		emit("repeat", "len(a0 * [1, 2, 3])", w, false, mkInt(n))
-		emit("repeat", "len((1, 2, 3) * a0)", w, false, mkInt(n))
+		// a count that does not fit in 32 bits may be rejected even when negative
+		emit("repeat", "len('abc' * a0)", w, !inI32(n), mkInt(n))
+		emit("repeat", "len(a0 * [1, 2, 3])", w, !inI32(n), mkInt(n))
+		emit("repeat", "len((1, 2, 3) * a0)", w, !inI32(n), mkInt(n))
 	} else {
 		emit("repeat_big", "len('abc' * a0)", "err", false, mkInt(n))
 		emit("repeat_big", "len(a0 * [1, 2, 3])", "err", false, mkInt(n))
